@@ -4,6 +4,7 @@
 package hasher
 
 import (
+	"reflect"
 	"unsafe"
 
 	"github.com/zeebo/xxh3"
@@ -18,10 +19,11 @@ type Hasher[K comparable] struct {
 func NewHasher[K comparable](stringKeyFunc func(K) string) *Hasher[K] {
 	h := &Hasher[K]{kfunc: stringKeyFunc}
 	var k K
-	switch ((interface{})(k)).(type) {
-	case string:
+	// any type whose underlying type is string (type MyKey string) has the
+	// memory layout of a string and must be hashed by content, not by header
+	if reflect.TypeOf(k) != nil && reflect.TypeOf(k).Kind() == reflect.String {
 		h.kstr = true
-	default:
+	} else {
 		h.ksize = int(unsafe.Sizeof(k))
 	}
 	return h
